@@ -461,7 +461,7 @@ def select(rng, genf, required, per_tag, max_programs, tries=4000):
 # ------------------------------------------------------------------ C08 programs (macros)
 
 C08_TAGS = ["or-then-again", "twice", "clash-before", "clash-after", "site-or", "body-or", "nested-body", "nested-head", "head-macro", "expr-param", "ident-in", "ident-out",
-            "local-pat", "local-cond", "local-neg", "twice-nested", "nested-passes-local", "expr-arg-mentions-clash", "macro-in-fact-head", "chain-twice", "chain-clash"]
+            "local-pat", "local-cond", "body-attached-cond", "body-attached-let", "local-neg", "twice-nested", "nested-passes-local", "expr-arg-mentions-clash", "macro-in-fact-head", "chain-twice", "chain-clash"]
 
 
 def gen_macro_body(rng, p, edb, idb, params, nested=None, want=()):
@@ -504,6 +504,9 @@ def gen_macro_body(rng, p, edb, idb, params, nested=None, want=()):
             if locs: tags.add("nested-passes-local")
     if rng.chance(1, 2) and sc.ints():
         items.append(("if", g.test(sc.ints()))); tags.add("local-cond")
+    att = attached_conds(items)
+    if any(gen_locals(c) for c in att): tags.add("body-attached-cond")          # an attached condition reads / binds a macro-local (former class of F25)
+    if any(c[0] in ("let", "iflet") and isinstance(c[1], int) for c in att): tags.add("body-attached-let")
     if "or" in g.tags: tags.add("body-or")
     if "pat" in g.tags: tags.add("local-pat")
     if "neg" in g.tags: tags.add("local-neg")
@@ -513,9 +516,32 @@ def gen_macro_body(rng, p, edb, idb, params, nested=None, want=()):
     return items + g.guards, tags
 
 
+def attached_conds(items):
+    """the conditions attached to clauses (no comma), through disjunctions"""
+    out = []
+    for it in items:
+        if it[0] == "cl": out += list(it[3])
+        elif it[0] == "or":
+            for a in it[1]: out += attached_conds(a)
+    return out
+
+
+def gen_locals(x):
+    """macro-local variable numbers mentioned anywhere in a condition (reads and binders; parameters are tuples)"""
+    out = set()
+    def walk(y):
+        if isinstance(y, tuple) and len(y) == 2 and y[0] == "var" and isinstance(y[1], int): out.add(y[1])
+        if isinstance(y, tuple) and len(y) == 3 and y[0] in ("let", "iflet") and isinstance(y[1], int): out.add(y[1])
+        if isinstance(y, (tuple, list)):
+            for z in y: walk(z)
+    walk(x)
+    return out
+
+
 def detach_conds(items):
-    """macro bodies of the general generator carry their conditions as separate items (`r(x), if c`): conditions attached to a clause
-    without a comma are the class of finding F25"""
+    """the same body with its conditions as separate items (`r(x), if c` instead of `r(x) if c`).  Until fix 3a6dc9a every macro body of the
+    general generator went through this (conditions attached to a clause were the class of finding F25); now only a fraction does, for
+    the variety of shapes"""
     out = []
     for it in items:
         if it[0] == "cl" and it[3]:
@@ -538,10 +564,13 @@ def gen_c08_program(rng):
         nested = (rng.below(i), modes[rng.below(i)]) if i and rng.chance(2, 3) else None
         if nested: nested = (nested[0], modes[nested[0]])
         for attempt in range(30):
-            body, t = gen_macro_body(rng.fork(f"m{i}a{attempt}"), p, edb, idb, ms, nested, want=rng.choice([[], ["or"], ["pat"], ["neg"], ["nested"], ["or", "nested"]]))
+            body, t = gen_macro_body(rng.fork(f"m{i}a{attempt}"), p, edb, idb, ms, nested,
+                                     want=rng.choice([[], ["or"], ["pat"], ["neg"], ["nested"], ["or", "nested"], ["cond"], ["cond"], ["cond", "nested"]]))
             if body is not None: break
         if body is None: return p, set()
-        macros.append({"params": ["expr" if m == "expr" else "ident" for m in ms], "body": detach_conds(body)}); modes.append(ms); tags |= t
+        if rng.chance(1, 4):           # the detached spelling of the same conditions
+            body = detach_conds(body); t -= {"body-attached-cond", "body-attached-let"}
+        macros.append({"params": ["expr" if m == "expr" else "ident" for m in ms], "body": body}); modes.append(ms); tags |= t
     # a "chain" macro whose only macro-local identifier is bound exclusively through the arguments of NESTED invocations:
     #   macro hop($a, $b) { r($a, $b) }   macro chain($a, $b) { hop!($a, mid), hop!(mid, $b) }
     # (renaming the locals of `chain` must also see the identifiers it hands to nested invocations)
